@@ -89,6 +89,9 @@ def measure(yaw, sc, expA, expB, work, emb, *, extra=None, order=None, wscale_un
     out["nz"] = nz.data
     out["nz_samples"] = nz.samples
     out["auto_counts"] = af.dd.counts.get_array()
+    ad = af.sample()
+    out["auto_amp"] = ad.data
+    out["auto_samples"] = ad.samples
     return out
 
 
@@ -169,14 +172,16 @@ def run(ctx) -> None:
                 ctx.evaluated(1, (case, name) if nontriv else None)
                 ctx.validated(1)
                 perm = kw.get("perm")
-                exp_samples, exp_nzs = ref["samples"], ref["nz_samples"]
+                exp_samples, exp_nzs, exp_auto = ref["samples"], ref["nz_samples"], ref["auto_samples"]
                 if perm is not None:
+                    exp_auto = ref["auto_samples"][list(perm)]
                     # real patch k = model patch perm[k]: jackknife sample k leaves out that patch
                     exp_samples = ref["samples"][list(perm)]
                     exp_nzs = ref["nz_samples"][list(perm)]
                 checks = [("amplitude", got["amp"], ref["amp"]), ("jackknife_samples", got["samples"], exp_samples),
                           ("covariance", got["cov"], ref["cov"]), ("redshift_estimate", got["nz"], ref["nz"]),
-                          ("redshift_estimate_samples", got["nz_samples"], exp_nzs)]
+                          ("redshift_estimate_samples", got["nz_samples"], exp_nzs),
+                          ("autocorrelation_amplitude", got["auto_amp"], ref["auto_amp"]), ("autocorrelation_samples", got["auto_samples"], exp_auto)]
                 for what, g, e in checks:
                     if not close(g, e):
                         ctx.violation(f"C13|{name.split(':')[0]}|{what}_changes", dict(detail, transform=name, got=np.asarray(g).tolist(), expected=np.asarray(e).tolist()))
